@@ -137,6 +137,10 @@ func (e cfError) Error() string {
 type cfErrors []cfError
 
 func (e cfErrors) Error() string {
+	if len(e) == 0 {
+		// The API reported a failure without saying why.
+		return "request failed"
+	}
 	errs := make([]error, 0, len(e))
 	for _, ee := range e {
 		errs = append(errs, ee)
